@@ -215,7 +215,7 @@ func disagreementClass(d Disagreement, p Pos, file []byte) string {
 
 // judgeError applies the oracle to one build error. It returns the violation
 // classes with details (empty if the error is consistent).
-func judgeError(be *scriggo.BuildError, fsys *bytesgen.RecFS) (keys []string, details []string, file []byte) {
+func judgeError(be *scriggo.BuildError, fsys *bytesgen.RecFS, programInput bool) (keys []string, details []string, file []byte) {
 	typ := errType(be)
 	cls := MsgClass(be.Message())
 	pos := be.Position()
@@ -226,6 +226,13 @@ func judgeError(be *scriggo.BuildError, fsys *bytesgen.RecFS) (keys []string, de
 		k := "path-not-opened"
 		if !exists {
 			k = "path-unknown"
+		}
+		if typ == "cycle" && !exists && programInput {
+			// import cycle of a program: Path() is the import path of a package, by
+			// design (the repository tests expect it); one structural class
+			keys = append(keys, "cycle|package-path")
+			details = append(details, fmt.Sprintf("Path()=%q is an import path, not a file the build opened (opened: %v)", path, fsys.OpenedNames()))
+			return keys, details, nil
 		}
 		keys = append(keys, core.SigJoin(typ, cls, k))
 		details = append(details, fmt.Sprintf("Path()=%q is not a file the build opened (opened: %v)", path, fsys.OpenedNames()))
@@ -302,7 +309,7 @@ func (prop) Work(c core.Case) core.Result {
 		if path != in.Main && path != "main.go" {
 			counts["errors_in_included_file"]++
 		}
-		keys, details, file := judgeError(be, fsys)
+		keys, details, file := judgeError(be, fsys, in.Kind == "program")
 		pos := be.Position()
 		// non-triviality: how hard the position was to get right
 		feat := ""
@@ -396,11 +403,13 @@ func (p prop) Drive(d *core.Driver) error {
 		nt := min(len(truncs)-ti, n/5)
 		rest := n - nt
 		mix := bytesgen.Mix{
-			Random:  rest * 5 / 100,
-			Mutant:  rest * 32 / 100,
-			TypeErr: rest * 33 / 100,
-			MultiT:  rest * 22 / 100,
-			MultiP:  rest * 8 / 100,
+			Random:     rest * 5 / 100,
+			Mutant:     rest * 28 / 100,
+			TypeErr:    rest * 30 / 100,
+			MultiT:     rest * 19 / 100,
+			MultiP:     rest * 8 / 100,
+			TmplSyntax: rest * 10 / 100,
+			Wide:       n * d.N(150, 3000) / total, // limit errors of every table, package level and bodies
 		}
 		inputs := g.Batch(r, mix)
 		inputs = append(inputs, truncs[ti:ti+nt]...)
